@@ -46,6 +46,7 @@ type Prog struct {
 	helperMemo  map[*ssa.Function]map[*ssa.Function]bool
 	staticSites map[*ssa.Function][]ssa.CallInstruction
 	valueUse    map[*ssa.Function]bool
+	valueUsers  map[*ssa.Function]map[*ssa.Function]bool
 	// function index by anchor name, e.g. "buffer/hybridbuffer.(*bufferer).Accept"
 	byAnchor map[string][]*ssa.Function
 	universe []*ssa.Function // module functions with bodies, excluding test support, sorted
@@ -183,6 +184,7 @@ func (P *Prog) index() {
 	for _, l := range P.byAnchor {
 		sort.Slice(l, func(i, j int) bool { return l[i].String() < l[j].String() })
 	}
+	P.installReviewedParent()
 	sort.Slice(P.universe, func(i, j int) bool {
 		a, b := P.universe[i], P.universe[j]
 		if a.String() != b.String() {
